@@ -10,6 +10,18 @@ use std::hash::Hasher;
 use twox_hash::XxHash64;
 use wyhash::WyHash;
 
+/// the per-position register values through the guarded hook; empty in a build without the hooks (the `nohooks` probe crate includes
+/// this file to compute sketches with the crate built WITHOUT its verification feature)
+macro_rules! regs_of {
+    ($s:expr) => {{
+        #[cfg(feature = "hooks")]
+        let r: Vec<f64> = $s.verif_registers();
+        #[cfg(not(feature = "hooks"))]
+        let r: Vec<f64> = Vec::new();
+        r
+    }};
+}
+
 pub const PLACEHOLDER: u64 = u64::MAX;
 
 #[derive(Clone, Copy, Debug, PartialEq, Eq, Serialize, Deserialize, Hash)]
@@ -111,7 +123,7 @@ fn run_h<H: Hasher + Default>(v: Variant, m: usize, batches: &[Batch]) -> Out {
                     }
                 }
             }
-            Out { sig: s.get_signature().clone(), regs: s.verif_registers() }
+            Out { sig: s.get_signature().clone(), regs: regs_of!(s) }
         }
         Variant::P3 => {
             let mut s = ProbMinHash3::<u64, H>::new(m, PLACEHOLDER);
@@ -141,7 +153,7 @@ fn run_h<H: Hasher + Default>(v: Variant, m: usize, batches: &[Batch]) -> Out {
                     }
                 }
             }
-            Out { sig: s.get_signature().clone(), regs: s.verif_registers() }
+            Out { sig: s.get_signature().clone(), regs: regs_of!(s) }
         }
         Variant::P3a => {
             let mut s = ProbMinHash3a::<u64, H>::new(m, PLACEHOLDER);
@@ -166,7 +178,7 @@ fn run_h<H: Hasher + Default>(v: Variant, m: usize, batches: &[Batch]) -> Out {
                     }
                 }
             }
-            Out { sig: s.get_signature().clone(), regs: s.verif_registers() }
+            Out { sig: s.get_signature().clone(), regs: regs_of!(s) }
         }
         Variant::P3aSha => unreachable!(),
     }
@@ -190,7 +202,7 @@ fn run_sha(m: usize, batches: &[Batch]) -> Out {
             }
         }
     }
-    Out { sig: s.get_signature().clone(), regs: s.verif_registers() }
+    Out { sig: s.get_signature().clone(), regs: regs_of!(s) }
 }
 
 pub fn run_pmh(v: Variant, h: HasherKind, m: usize, batches: &[Batch]) -> Out {
@@ -226,5 +238,5 @@ pub fn run_sha_keys<D: Clone + Eq + std::fmt::Debug + std::hash::Hash + probminh
             s.hash_weigthed_idxmap(&map);
         }
     }
-    (s.get_signature().clone(), s.verif_registers())
+    (s.get_signature().clone(), regs_of!(s))
 }
